@@ -918,3 +918,29 @@ class FlagFlow:
 
 def expr_vars_(n):
     return {x["n"] for x in walk(n) if x.get("k") == "var"}
+
+
+
+def mutated_self_fields(thir, adt_substr):
+    """names of the fields of `self` (an ADT whose path contains adt_substr) that a function body may change: assigned, op-assigned,
+    or mutably borrowed (receiver of a `&mut self` method such as push / pop / clear / insert)"""
+    out = set()
+
+    def field_of_self(n):
+        n = peel(n)
+        while isinstance(n, dict) and n.get("k") in ("index",):
+            n = peel(n.get("e"))
+        if isinstance(n, dict) and n.get("k") == "field" and adt_substr in str(n.get("adt", "")):
+            return n.get("n")
+        return None
+    for n in walk(thir):
+        k = n.get("k")
+        if k in ("assign", "assignop"):
+            f = field_of_self(n.get("l"))
+            if f:
+                out.add(f)
+        elif k == "ref" and n.get("m"):
+            f = field_of_self(n.get("e"))
+            if f:
+                out.add(f)
+    return out
